@@ -47,6 +47,7 @@ func TestSweep(t *testing.T) {
 		Oracle.One(t, env, rec, "sweep", &Case{S: e.S.Name, D: e.D.Name, Xs: vals(Bounds(e)), Fix: 6}) // source two frames longer than the destination
 		Oracle.One(t, env, rec, "sweep", &Case{S: e.S.Name, D: e.D.Name, Xs: vals(Bounds(e)), Fix: 7}) // destination two frames longer than the source
 		Oracle.One(t, env, rec, "sweep", &Case{S: e.S.Name, D: e.D.Name, Xs: vals(Bounds(e)), Fix: 8}) // the destination buffer is shared with every other instantiation of this destination type
+		Oracle.One(t, env, rec, "sweep", &Case{S: e.S.Name, D: e.D.Name, Xs: vals(Bounds(e)), Fix: 9}) // the source was converted into a shorter destination before
 		if e.S.Bits == 64 {
 			// float32-exact inputs at every quantisation step of 8-bit (and a stride of 16-bit) destinations, each with its float64 neighbours
 			d := e.D.Bits
